@@ -513,7 +513,7 @@ inline void begin_case(const Stream& s, uint64_t sid, uint64_t gidx, uint64_t lo
   st.wlen = 0;
   st.note[0] = 0;
   st.in_case = 1;
-  if ((st.cases & 0x3f) == 0 || args().case_timeout) alarm(args().case_timeout ? args().case_timeout : (args().thorough ? 900 : 180));
+  if ((st.cases & 0x3f) == 0 || args().case_timeout) alarm(args().case_timeout ? args().case_timeout : (args().thorough ? 900 : 90));
   st.cases = st.cases + 1;
 }
 // one input / execution judged by an oracle
